@@ -294,6 +294,33 @@ func mutants(t *harness.TxSpec, w *harness.World) []mutant {
 			c.Signatures[i].Signer = keys.PublicKey{KeyType: keys.BTCECSECP, Data: harness.NewSecpAccount("attacker-btcec").Pub.Data}
 		})
 	}
+	// cross-slot substitutions (each slot keeps one half of its own signature object)
+	for i := range orig.Signatures {
+		for j := range orig.Signatures {
+			if i == j {
+				continue
+			}
+			i, j := i, j
+			add(fmt.Sprintf("sig[%d]:signature-bytes-of-slot-%d", i, j), func(c *action.SignedTx) {
+				c.Signatures[i].Signed = append([]byte(nil), orig.Signatures[j].Signed...)
+			})
+			add(fmt.Sprintf("sig[%d]:signer-key-of-slot-%d", i, j), func(c *action.SignedTx) {
+				c.Signatures[i].Signer = orig.Signatures[j].Signer
+			})
+		}
+	}
+	// an attacker who holds one of the required keys signs in every slot with it, keeping the other
+	// slots' public keys (the required signer's key is public knowledge)
+	if len(orig.Signatures) >= 2 {
+		for j := range orig.Signatures {
+			j := j
+			add(fmt.Sprintf("siglist:all-signature-bytes-from-slot-%d", j), func(c *action.SignedTx) {
+				for i := range c.Signatures {
+					c.Signatures[i].Signed = append([]byte(nil), orig.Signatures[j].Signed...)
+				}
+			})
+		}
+	}
 	add("siglist:drop-last", func(c *action.SignedTx) {
 		if len(c.Signatures) > 0 {
 			c.Signatures = c.Signatures[:len(c.Signatures)-1]
